@@ -52,7 +52,7 @@ RULE = ("pairwise covering array over cell {cubic, tetragonal, orthorhombic, hex
         "Non-trivial: more than one reflection with non-zero structure factor. Distinct = distinct case dict.")
 BOUNDS = {
     "cells": CELLS, "centrings": CENTRINGS, "centering_arg": ["auto", "symbol", "P"], "g_max": [1.2, 2.0, 2.7],
-    "sigma": ["zero", "scalar", "element", "atom", "aniso"], "occupancy": ["one", "scalar", "element"],
+    "sigma": ["zero", "scalar", "element", "atom", "aniso", "element_zero", "atom_zero", "aniso_zero"], "occupancy": ["one", "scalar", "element"],
     "cutoff": ["taper", "hard"], "parametrization": ["lobato", "kirkland"], "lazy": [False, True], "basis": [1, 2],
     "translation_max": 3, "extra_random_cases": {"quick": 25, "thorough": 400},
 }
@@ -182,6 +182,15 @@ def _props(case, atoms, r):
         sigma = [per_el[e] for e in atoms.get_chemical_symbols()]
     elif s == "aniso":
         sigma = {e: (per_el[e], per_el[e] * 0.5, per_el[e] * 1.5) for e in elems}
+    elif s in ("element_zero", "atom_zero", "aniso_zero"):
+        # a static sub-lattice next to a vibrating one: the first element (in sorted order) does not vibrate at all
+        mixed = {e: (0.0 if i == 0 and len(elems) > 1 else per_el[e]) for i, e in enumerate(elems)}
+        if s == "element_zero":
+            sigma = mixed
+        elif s == "atom_zero":
+            sigma = [mixed[e] for e in atoms.get_chemical_symbols()]
+        else:
+            sigma = {e: (mixed[e], mixed[e] * 0.5, mixed[e] * 1.5) for e in elems}
     else:
         raise ValueError(s)
     o = case["occupancy"]
